@@ -1,6 +1,9 @@
 /-
-Model of the depth schedule of a trench column: number of wall passes and the depth (in glass) of each pass.  Import-free.
+Model of the depth schedule of a trench column: number of wall passes and the depth (in glass) of each pass.  Import-free (core only).
+Second part: compile-side model of `TrenchWriter._farcall_trench_column` (the call file of a plain trench column).
 -/
+import FemtoVerif.Model.Gcode
+
 namespace Femto.TP
 
 /-- `n_repeat = int(abs(ceil((h_box - z_off) / deltaz)))` -/
@@ -16,5 +19,111 @@ def floorZ (h zoff dz : Rat) (L : Nat) : Rat := passZ h zoff dz L (nRepeat h zof
 /-- the depths of all wall passes of a column, in fabrication order (level by level) -/
 def schedule (h zoff dz : Rat) (nboxz : Nat) : List Rat :=
   (List.range nboxz).flatMap fun L => (List.range (nRepeat h zoff dz)).map fun k => passZ h zoff dz L k
+
+/-! ### compile-side model of the call file of a trench column -/
+
+open Femto.Ctl Femto.Gc
+
+/-- what `TrenchWriter._farcall_trench_column` reads off a trench column -/
+structure Col where
+  index : Nat                      -- 0-based column index
+  nboxz : Nat
+  nRep : Int                       -- `column.n_repeat`
+  baseFolder : String
+  inits : List (Rat × Rat)         -- `(xborder[0], yborder[0])` of every trench, in column order
+  hBox : Rat
+  zOff : Rat
+  deltaz : Rat
+  speedClosed : Rat
+  u : Option (Rat × Rat)           -- `(u[0], u[-1])` when the column has a `u` list
+deriving Repr, Inhabited
+
+/-- `f'{n:03}'` -/
+def pad3 (n : Nat) : String :=
+  let s := toString n
+  String.ofList (List.replicate (3 - s.length) '0') ++ s
+
+def wallName (i : Nat) : String := "trench" ++ pad3 (i + 1) ++ "_wall.pgm"
+def floorName (i : Nat) : String := "trench" ++ pad3 (i + 1) ++ "_floor.pgm"
+def colDir (c : Col) : String := "trenchCol" ++ pad3 (c.index + 1)
+/-- `str(pathlib.Path(base_folder) / colDir / name)` for a non-empty base folder without trailing separator -/
+def inCol (c : Col) (name : String) : String :=
+  if c.baseFolder = "" then colDir c ++ "/" ++ name else c.baseFolder ++ "/" ++ colDir c ++ "/" ++ name
+
+def instrR (is : List Instr) (cs : CS) : Res := Res.ofOut (emit is, cs)
+def shutterR (cfg : Cfg) (on : Bool) (cs : CS) : Res := Res.ofOut (shutter cfg on cs)
+def dwellR (p : Option Rat) (cs : CS) : Res := Res.ofOut (dwell p cs)
+def moveToR (cfg : Cfg) (x y z sp : Option Rat) (cs : CS) : Res :=
+  let r := moveTo cfg x y z sp cs; { out := r.1.1, cs := r.1.2, err := r.2 }
+
+/-- `G1 U{u:.6f}` -/
+def g1U (u : Rat) : Instr := .g1 { u := some (fmt 6 u), decs := [6] }
+
+/-- the U move (with or without the pause that follows it) -/
+def uMove (cfg : Cfg) (u : Option Rat) (pause : Bool) (cs : CS) : Res :=
+  match u with
+  | none => { cs := cs }
+  | some v => if pause then (instrR [g1U v] cs).andThen (dwellR cfg.longPause) else instrR [g1U v] cs
+
+/-- the wall loop: `with G.repeat(n): farcall(wall); $ZCURR += dz; G1 Z$ZCURR` -/
+def wallLoop (cfg : Cfg) (c : Col) (i : Nat) (cs : CS) : Res :=
+  if c.nRep ≤ 0 then { cs := cs, err := some (.value "Number of iterations is 0") }
+  else
+    let r := (farcallOp cfg (wallName i) cs).andThen
+      (instrR [.incVar "zcurr" (fmt 6 (c.deltaz / cfg.neff)), .g1 { zvar := some "ZCURR" }])
+    { out := [Stmt.rep c.nRep.toNat r.out, Stmt.atom .blank], pre := r.pre,
+      cs := { r.cs with dwellTotal := r.cs.dwellTotal + loopIncr c.nRep cs.dwellTotal r.cs.dwellTotal }, err := r.err }
+
+/-- one (level, trench) block of the call file -/
+def trenchBlock (cfg : Cfg) (c : Col) (nbox i : Nat) (xy : Rat × Rat) (cs : CS) : Res :=
+  let p := transform cfg xy.1 xy.2 ((nbox : Rat) * c.hBox + c.zOff)
+  ((((((((((((((((Res.ofOut (comment true cs)).andThen
+    (loadOp (inCol c (wallName i)) 2)).andThen
+    (instrR [.msg])).andThen
+    (shutterR cfg false)).andThen
+    (uMove cfg (c.u.map (·.1)) true)).andThen
+    (moveToR cfg (some p.1) (some p.2.1) (some p.2.2) (some c.speedClosed))).andThen
+    (instrR [.setVar "zcurr" (fmt 6 p.2.2)])).andThen
+    (shutterR cfg true)).andThen
+    (wallLoop cfg c i)).andThen
+    (removeOp (wallName i) 2)).andThen
+    (shutterR cfg false)).andThen
+    (loadOp (inCol c (floorName i)) 2)).andThen
+    (instrR [.msg])).andThen
+    (uMove cfg (c.u.map (·.2)) true)).andThen
+    (shutterR cfg true)).andThen
+    (farcallOp cfg (floorName i))).andThen fun cs =>
+  (((shutterR cfg false cs).andThen
+    (uMove cfg (c.u.map (·.1)) false)).andThen
+    (removeOp (floorName i) 2))
+
+/-- all blocks: `itertools.product(range(nboxz), enumerate(column))` — levels outermost -/
+def blocksFrom (cfg : Cfg) (c : Col) : List (Nat × Nat × (Rat × Rat)) → CS → Res
+  | [], cs => { cs := cs }
+  | (nbox, i, xy) :: rest, cs => (trenchBlock cfg c nbox i xy cs).andThen (blocksFrom cfg c rest)
+
+def blockList (c : Col) : List (Nat × Nat × (Rat × Rat)) :=
+  (List.range c.nboxz).flatMap fun nbox => c.inits.zipIdx.map fun (xy, i) => (nbox, i, xy)
+
+/-- the body of `_farcall_trench_column`: `dvar(['ZCURR'])`, the blocks, `MSGCLEAR -1` -/
+def farcallBody (cfg : Cfg) (c : Col) (cs : CS) : Res :=
+  let d : Res := { pre := emit [.dvar ["zcurr"], .blank], cs := { cs with dvars := cs.dvars ++ ["zcurr"] } }
+  (d.andThen (blocksFrom cfg c (blockList c))).andThen (instrR [.msg])
+
+/-- a whole compiler session around an arbitrary body (the shape of `Gc.session`) -/
+def sessionWith (cfg : Cfg) (body : CS → Res) : List Stmt × CS :=
+  let cs0 : CS := {}
+  let h := seq (seq (emit (cfg.header ++ [.blank]), cs0) (dwell (some 1))) fun cs => (emit [.blank], cs)
+  let h := if cfg.aeroAngle = 0 then h else seq h (enterRot cfg (some cfg.aeroAngle))
+  let r := body h.2
+  let x := if cfg.aeroAngle = 0 then (([] : List Stmt), r.cs) else seq (exitRot cfg r.cs) fun cs => (emit [.blank], cs)
+  let g : Out :=
+    if cfg.home then
+      let m := moveTo cfg (some (-2)) (some 0) (some 0) none x.2
+      (m.1.1, m.1.2)
+    else ([], x.2)
+  (r.pre ++ h.1 ++ r.out ++ x.1 ++ g.1, g.2)
+
+def farcallFile (cfg : Cfg) (c : Col) : List Stmt × CS := sessionWith cfg (farcallBody cfg c)
 
 end Femto.TP
